@@ -81,6 +81,8 @@ def evaluate(term, assign, window=range(-1, 9), bound=None):
             if not ch:
                 if name in assign:
                     return assign[name]
+                if name == "pi" and z3.is_real(t):
+                    return math.pi
                 raise CannotEvaluate(f"no value for {name}")
             if name in UF:
                 return UF[name](*[float(ev(c, env)) for c in ch])
